@@ -4,6 +4,7 @@ import QP.Proofs.PTTop2
 import QP.Proofs.PTTop3
 import QP.Proofs.PTSingle
 import QP.Proofs.PTTopA
+import QP.Proofs.PTExistTop
 import QP.Proofs.PTTable
 /-!
 # C01 — an instantiated program plays exactly the voltages the template describes
@@ -69,6 +70,33 @@ theorem compile_correct_stage2 {pt : PT} (hs : Stage2 pt) (params : List (String
   have := hsample c pl hc t ht0 ht
   obtain ⟨v, hv⟩ := PL.at_isSome pl t ht0 (by rw [hplDur c pl hc]; exact ht)
   exact ⟨v, by rw [this, hv], hv⟩
+
+/-- **existence of the denotation** (`compile … = ok → ∃ P, denoteTop … = ok P`) for the well-formed fragment `Stage2E`:
+constant, table, point templates and function templates whose expression is affine in `t` and cannot fail by itself
+(`Expr.safe`: no unsupported function, no negative power), composed by sequencing, repetition, indexed iteration and
+mapping.  Hypotheses on the *compiled program* only: all played pieces have positive duration and all played
+waveforms define the same channel set `S` (what sequencing demands of its parts; the code does not check it). -/
+theorem denotation_exists_partial {pt : PT} (hs : Stage2E pt) (params : List (String × Rat))
+    (mm : Option (List (MName × Option MName))) (cm : List (Chan × Option Chan)) (prog : Loop) (S : List Chan)
+    (hprog : createProgram pt params mm cm [] = .ok (some prog)) (hpos : prog.allPos)
+    (hu : ∀ cs ∈ prog.leafChannels, ∀ x, x ∈ cs ↔ x ∈ S) :
+    ∃ P, denoteTop pt params mm cm = .ok P :=
+  createProgram_exists_basic hs.basicE params mm cm prog S hprog hpos hu
+
+/-- **compile correctness without assuming the denotation** (fragment `Stage2E`): the template denotes a pulse `P`,
+and the compiled program plays it — every sample in `[0, duration)` on every channel of `P` is the denoted voltage
+(never NaN), and every played piece defines exactly the channels of `P`. -/
+theorem compile_correct_total_partial {pt : PT} (hs : Stage2E pt) (params : List (String × Rat))
+    (mm : Option (List (MName × Option MName))) (cm : List (Chan × Option Chan)) (prog : Loop) (S : List Chan)
+    (hprog : createProgram pt params mm cm [] = .ok (some prog)) (hpos : prog.allPos)
+    (hu : ∀ cs ∈ prog.leafChannels, ∀ x, x ∈ cs ↔ x ∈ S) :
+    ∃ P, denoteTop pt params mm cm = .ok P ∧ prog.duration = P.dur ∧
+      (∀ cs ∈ prog.leafChannels, ∀ x, x ∈ cs ↔ x ∈ P.chanNames) ∧
+      ∀ c pl, P.chans.lookup c = some pl → ∀ t, 0 ≤ t → t < P.dur →
+        ∃ v, prog.sample c t = some v ∧ PL.at pl t = some v := by
+  obtain ⟨P, hP⟩ := denotation_exists_partial hs params mm cm prog S hprog hpos hu
+  obtain ⟨h1, h2⟩ := compile_correct_stage2 hs.stage2 params mm cm prog P hprog hP hpos
+  exact ⟨P, hP, (createProgram_rel_basic hs.stage2.basic params mm cm prog P hprog hP hpos).1, h1, h2⟩
 
 /-- **under a global transformation**: what a stage-3 template compiles to inside a context that carries the chain
 `T` (pushed by enclosing arithmetic / parallel-channel templates) plays `T` applied, channel by channel, to the
@@ -206,6 +234,14 @@ example : Stage2 (.seq none [exPt, .rep none exPt (.var "n") [] []] [] []) :=
 
 example : ∃ prog P, createProgram exPt [] none [] [] = .ok (some prog) ∧ denoteTop exPt [] none [] = .ok P ∧
     prog.allPos := ⟨exProg, _, exPt_program, exPt_denote, exProg_allPos⟩
+
+/-- non-vacuity of `denotation_exists_partial`: its hypotheses hold for the evaluated example -/
+example : ∃ P, denoteTop exPt [] none [] = .ok P :=
+  denotation_exists_partial Stage2E.const [] none [] exProg ["A"] exPt_program exProg_allPos (by
+    intro cs hcs x
+    simp [exProg, Loop.leafChannels, Loop.leafChannelsList, Wf.channels] at hcs
+    subst hcs
+    rfl)
 
 /-- `ArithmeticAtomicPT` (here `exPt - exPt` under a sequence) is in the scope of `compile_correct_partial` -/
 example : Stage3 (.seq none [.arithAtomic none exPt true exPt []] [] []) :=
